@@ -210,7 +210,7 @@ func (g *g) floatLit() string {
 }
 
 var strPieces = []string{"a", "b", "prod", "acme.com", " ", "x y", "#nocomment", ";", "(", ")", "{}", "=", "é", "→", "日本", " ", "\u0085",
-	`\n`, `\t`, `\\`, `\"`, `\x41`, `é`, `\101`, `\r`, `\a`, `\U0001F600`, "-", "0", "42", "var", "def", "'", "/", "%d", "<=", "->"}
+	`\n`, `\t`, `\\`, `\"`, `\x41`, `é`, `\101`, `\r`, `\a`, `\U0001F600`, "\U0001F600", "\U00010348x", "-", "0", "42", "var", "def", "'", "/", "%d", "<=", "->"}
 
 func (g *g) strLit() string {
 	var sb strings.Builder
@@ -761,7 +761,7 @@ func NeedSep(a, b string) bool {
 var plainSeps = []string{" ", " ", " ", "\n", "\n", "  ", "\t", "\n\n", " \n", "\n    "}
 var exoticSeps = []string{"\r\n", "\r", "\v", "\f", " ", "\u0085", "   ", "\t\t", "\n\r\n", "\u0085\n", " \r\n\t"}
 var exoticSepsASCII = []string{"\r\n", "\r", "\v", "\f", "\t\t", "\n\r\n", " \r\n\t"}
-var commentBodies = []string{"", " comment", " a \"quoted\" thing", " var def print }", " é→日本", "#", " x = 1 ; y", "\t", "  \u0085", " trailing  ", " ' ` \\ "}
+var commentBodies = []string{"", " comment", " \U0001F600 four-byte \U0001F680", "\U0001F600", " a \"quoted\" thing", " var def print }", " é→日本", "#", " x = 1 ; y", "\t", "  \u0085", " trailing  ", " ' ` \\ "}
 
 func (p *Prog) sep(r *prng.R, cfg Cfg, must bool, afterStmt bool) string {
 	if !must && r.Chance(cfg.Tight, 100) {
